@@ -15,7 +15,7 @@ EXPLANATION = (
     "literal is guarded at MIN_INTEGER / MIN_LONG, and (R5, interval dataflow) every integer literal "
     "built by arithmetic in the parser stays inside the range of its literal type.")
 NOT_DECIDED = [
-    "that the rotation algorithm groups chains of three or more operators correctly",
+    "that the binary rotation groups chains of four or more operators correctly (the unary rotation is decided on two-level chains, C10.R6)",
     "the numeric thresholds and the exact value a literal denotes (value-level)",
 ]
 ASSUMPTIONS = ["precedence ranks as stated in the property text: * / > MOD > + - > relational > "
@@ -102,6 +102,68 @@ def r2_unary_flip(ctx, eng, rule="C10.R2"):
                        "`%s a %s b` : should_flip_unary returns %s, ranks require %s"
                        % (u, r, rs[0], want))
     ctx.require(rule, 26)
+
+
+def _tree(v):
+    v = tf.deref(v)
+    if v[0] == "tag" and v[2] == "Positioned":
+        return _tree(v[3][0])
+    if v[0] == "tag" and v[2] == "BinaryExpression":
+        o = tf.deref(v[3][0])
+        return "(%s %s %s)" % (_tree(v[3][1]), o[2] if o[0] == "tag" else "?", _tree(v[3][2]))
+    if v[0] == "tag" and v[2] == "UnaryExpression":
+        o = tf.deref(v[3][0])
+        return "%s[%s]" % (o[2] if o[0] == "tag" else "?", _tree(v[3][1]))
+    if v[0] == "tag":
+        return "x"
+    return "?"
+
+
+def r6_unary_over_chains(ctx, rule="C10.R6"):
+    """`u a op1 b op2 c`: the operand of the unary operator is parsed greedily as the already
+    grouped chain (a op1 b) op2 c; apply_unary_priority_order must move the operator down the left
+    spine past every operator that binds looser than it - all the way, not just one level.  The
+    function is interpreted abstractly on every such two-level tree (all operator pairs the binary
+    grouping can produce) and the resulting tree is compared with the one the ranks prescribe."""
+    prog = ctx.prog
+    eng = tf.Engine(prog)
+    eng.trunc_depth = 10
+    fns = [f for f in prog.fns.values() if f.name == "apply_unary_priority_order" and f.impl
+           and f.impl["self_ty"].endswith("Positioned<expr::types::Expression>")]
+    if len(fns) != 1:
+        raise CheckError("anchor apply_unary_priority_order: %d matches" % len(fns))
+    fn = fns[0]
+
+    def leaf():
+        return eng.make(POS, "Positioned", {0: eng.make(EXPR, "IntegerLiteral")})
+
+    def binop(op, l, r):
+        return eng.make(POS, "Positioned", {0: eng.make(EXPR, "BinaryExpression", {0: tf.Tag(OP, op), 1: l, 2: r})})
+
+    n = 0
+    for u in prog.variants(UOP):
+        for op1 in prog.variants(OP):
+            for op2 in prog.variants(OP):
+                if RANK[op1] < RANK[op2]:
+                    continue    # the binary grouping never produces (a op1 b) op2 c for these
+                n += 1
+                x = binop(op2, binop(op1, leaf(), leaf()), leaf())
+                got = sorted({_tree(r) for r in eng.summary(fn, (x, tf.Tag(UOP, u), tf.TOP))})
+                if URANK[u] > RANK[op2]:
+                    inner = "(%s[x] %s x)" % (u, op1) if URANK[u] > RANK[op1] else "%s[(x %s x)]" % (u, op1)
+                    want = "(%s %s x)" % (inner, op2)
+                else:
+                    want = "%s[((x %s x) %s x)]" % (u, op1, op2)
+                key = "%s:%s(%s,%s)" % (rule, u, op1, op2)
+                if any("?" in g for g in got):
+                    ctx.unknown(rule, key, fn.loc, "abstract result %s" % got)
+                    continue
+                ctx.decide(got == [want], rule, key, fn.loc, want,
+                           "`%s a %s b %s c` is built as %s, the ranks prescribe %s" % (u, op1, op2, got, want))
+    if eng.imprecise:
+        ctx.notes.append("C10.R6 abstract interpreter imprecision: %s" % eng.imprecise[:3])
+    ctx.analysed_units(rule, function=fn.path, trees=n)
+    ctx.require(rule, 150)
 
 
 def _literal_shapes(eng, fn, args):
@@ -228,5 +290,6 @@ def run(ctx):
     c06.r3_integer_constructors(ctx, "C10.R5", crates=("rusty_parser",),
                                 adt="rusty_parser::expr::types::Expression", floor=2)
     r4_decimal_total(ctx, eng)
+    r6_unary_over_chains(ctx)
     if eng.imprecise:
         ctx.notes.append("abstract interpreter imprecision: %s" % eng.imprecise[:5])
